@@ -187,6 +187,107 @@ def call_params2(x, deterministic=True, training=True):
     return inner_params(x) + 1.0
 
 
+# ---- bodies that fail only when they are re-traced (inside the function-body build) ----------
+
+
+def _in_build(marker: str) -> bool:
+    """Is a function whose primitive name contains `marker` being built right now?"""
+    from jax2onnx.plugins import plugin_system as ps
+    return any(marker in n for n in ps._IN_FUNCTION_BUILD.get())
+
+
+class BodyBuildFailure(IndexError):
+    """raised by a decorated body exactly when it is re-traced for its own function-body build"""
+
+    def __init__(self, in_build: bool):
+        super().__init__(f"deliberate failure (inside function-body build: {in_build})")
+        self.in_build = in_build
+
+
+@onnx_function
+class SBlock:
+    """decorated class; an instance with `fail_in_build` raises when its body is re-traced at
+    lowering time (the outer trace / abstract evaluation succeed)"""
+
+    def __init__(self, fail_in_build):
+        self.w = jnp.asarray(np.arange(16, dtype=np.float32).reshape(4, 4) / 16.0)
+        self.fail_in_build = bool(fail_in_build)
+
+    def __call__(self, x):
+        if self.fail_in_build and _in_build("SBlock"):
+            raise BodyBuildFailure(True)
+        return jnp.tanh(x @ self.w) * 2.0
+
+
+def _sblock_model(fail):
+    block = SBlock(fail)
+
+    def model_fn(x):
+        return block(x) + 1.0
+    model_fn._keepalive = block
+    return model_fn
+
+
+_FAIL_IN_BUILD = {"on": False}
+
+
+@onnx_function
+def inbuild_fn(x):
+    """decorated free function that raises inside its own body build when the switch is on"""
+    if _FAIL_IN_BUILD["on"] and _in_build("inbuild_fn"):
+        raise BodyBuildFailure(True)
+    return jnp.tanh(x) * 3.0
+
+
+def _inbuild_model(fail):
+    _FAIL_IN_BUILD["on"] = bool(fail)
+
+    def model_fn(x):
+        return inbuild_fn(x) + inbuild_fn(x * 2.0)
+    return model_fn
+
+
+@onnx_function
+class Alpha(nnx.Module):
+    def __init__(self, rngs):
+        self.lin = nnx.Linear(4, 4, rngs=rngs)
+
+    def __call__(self, x):
+        return nnx.relu(self.lin(x))
+
+
+@onnx_function
+class Beta(nnx.Module):
+    def __init__(self, rngs):
+        self.lin = nnx.Linear(4, 4, rngs=rngs)
+
+    def __call__(self, x):
+        return jnp.tanh(self.lin(x))
+
+
+@onnx_function
+class Gamma(nnx.Module):
+    def __init__(self, rngs):
+        self.ln = nnx.LayerNorm(4, rngs=rngs)
+
+    def __call__(self, x):
+        return self.ln(x)
+
+
+@onnx_function
+class Outer3(nnx.Module):
+    """a function body that references three different nested function domains"""
+
+    def __init__(self):
+        rngs = nnx.Rngs(0)
+        self.a = Alpha(rngs)
+        self.b = Beta(rngs)
+        self.g = Gamma(rngs)
+
+    def __call__(self, x):
+        return self.g(self.a(x) + self.b(x))
+
+
 def fail_user(x):
     raise ValueError("deliberate failure inside the user function")
 
@@ -218,6 +319,13 @@ def _req(fn, inputs, **kw):
     return {"fn": fn, "inputs": inputs, "kw": kw}
 
 
+def _freq(factory, inputs, **kw):
+    """request whose callable is built afresh for every conversion (stateful bodies)"""
+    return {"factory": factory, "inputs": inputs, "kw": kw}
+
+
+
+
 def catalogue() -> dict:
     """id -> request (built lazily so module objects with fixed seeds are created once)."""
     return {
@@ -238,6 +346,9 @@ def catalogue() -> dict:
         "fn_shared": _req(fn_shared, [(2, 4), (2, 4)]),
         "fn_unique": _req(_model("twounique", TwoUnique), [(2, 4)]),
         "fn_const": _req(fn_const, [(3,)]),
+        "fn_nested3": _req(_model("outer3", Outer3), [(2, 4)]),
+        "fn_sblock_ok": _freq(lambda: _sblock_model(False), [("B", 4)]),
+        "fn_inbuild_ok": _freq(lambda: _inbuild_model(False), [(3,)]),
         "call_params1": _req(call_params1, [(3,)], input_params={"deterministic": True}),
         "call_params2": _req(call_params2, [(3,)], input_params={"deterministic": True, "training": True}),
         # deliberately failing conversions
@@ -245,10 +356,18 @@ def catalogue() -> dict:
         "fail_unsupported": _req(fail_unsupported, [(3,)]),
         "fail_after_fn": _req(fail_after_fn, [(3,)]),
         "fail_spec": _req(ew, [(3, 4), (3, 4)], inputs_as_nchw=[0]),
+        # failure INSIDE the function-body build (the re-trace of a decorated body at lowering time)
+        "fail_in_body_sblock": _freq(lambda: _sblock_model(True), [("B", 4)]),
+        "fail_in_body_fn": _freq(lambda: _inbuild_model(True), [(3,)]),
     }
 
 
-FAILING = ("fail_user", "fail_unsupported", "fail_after_fn", "fail_spec")
+FAILING = ("fail_user", "fail_unsupported", "fail_after_fn", "fail_spec",
+           "fail_in_body_sblock", "fail_in_body_fn")
+# failing request -> good request using the SAME decorated target (must be exported again afterwards)
+SIBLING = {"fail_in_body_sblock": "fn_sblock_ok", "fail_in_body_fn": "fn_inbuild_ok",
+           "fail_after_fn": "fn_shared"}
+IN_BODY = ("fail_in_body_sblock", "fail_in_body_fn")
 
 
 def request_ids() -> list:
@@ -260,7 +379,17 @@ def request_ids() -> list:
 
 def convert(rid: str):
     r = catalogue()[rid]
-    return to_onnx(r["fn"], r["inputs"], model_name=f"m_{rid}", **r["kw"])
+    fn = r["factory"]() if "factory" in r else r["fn"]
+    return to_onnx(fn, r["inputs"], model_name=f"m_{rid}", **r["kw"])
+
+
+def state_snapshot() -> dict:
+    """process-wide state that a conversion (successful or failed) must leave as it found it"""
+    from jax2onnx.plugins import plugin_system as ps
+    return {"in_function_build": sorted(ps._IN_FUNCTION_BUILD.get()),
+            "onnx_fn_hits": sorted(ps._ONNX_FN_HITS.get()),
+            "patch_state": len(ps._PATCH_STATE),
+            "x64": bool(jax.config.jax_enable_x64)}
 
 
 def _erase_shapes(proto) -> None:
@@ -305,8 +434,10 @@ def summary(proto) -> list:
         out.append(f"node {n.domain}:{n.op_type} {n.name} {list(n.input)} -> {list(n.output)}")
     for v in proto.graph.value_info:
         out.append(f"value_info {v.name}{dims(v)}")
+    out.append("opset_import " + " ".join(f"{o.domain or 'ai.onnx'}={o.version}" for o in proto.opset_import))
     for f in proto.functions:
-        out.append(f"function {f.domain}:{f.name} {list(f.input)} -> {list(f.output)}")
+        out.append(f"function {f.domain}:{f.name} {list(f.input)} -> {list(f.output)} opset_import "
+                   + " ".join(f"{o.domain or 'ai.onnx'}={o.version}" for o in f.opset_import))
         for n in f.node:
             out.append(f"  fnode {n.domain}:{n.op_type} {n.name} {list(n.input)} -> {list(n.output)}")
         for v in f.value_info:
@@ -368,6 +499,7 @@ def run_history(spec: dict) -> list:
         _garbage(lcg, keep)
         if mode == "collect":
             gc.collect()
+        before = state_snapshot()
         try:
             proto = convert(rid)
             d = digests(proto)
@@ -380,7 +512,9 @@ def run_history(spec: dict) -> list:
             if isinstance(e, (KeyboardInterrupt, SystemExit)):
                 raise
             out.append({"pos": pos, "id": rid, "digest": None, "noshape": None, "inputs": None,
-                        "error": type(e).__name__})
+                        "error": type(e).__name__, "in_build": getattr(e, "in_build", None)})
+        after = state_snapshot()
+        out[-1]["state_changed"] = {k: [before[k], after[k]] for k in before if before[k] != after[k]}
     return out
 
 
